@@ -255,6 +255,14 @@ class Skedder(object):
         #stopped = self.stopped
         aborted = self.aborted
 
+        # Reckon times as start + count * period instead of accumulated sums so
+        # that float rounding with decimal periods such as 0.1 does not drift
+        # and make a tasker miss the iteration where it is due.
+        start = self.stamp  # stamp at start of run
+        ticks = 0  # count of skedder iterations since start
+        slop = self.period * 1e-9  # tolerance for float rounding in comparison
+        reckons = {}  # tasker: [base retime, count of periods, period]
+
         try: #so always clean up resources if exception
             while True:
                 try: #CNTL-C generates keyboardInterrupt to break out of while loop
@@ -266,7 +274,7 @@ class Skedder(object):
                     for i in range(len(ready)): #attempt to run each ready tasker
                         tasker, retime, period = ready.popleft() #pop it off
 
-                        if retime > stamp: #not time yet
+                        if retime > stamp + slop: #not time yet
                             ready.append((tasker, retime, period)) #reappend it
                             status = tasker.status
 
@@ -277,8 +285,13 @@ class Skedder(object):
                                     aborted.append((tasker, stamp, period))
                                     console.profuse("     Tasker Self Aborted: {0}\n".format(tasker.name))
                                 else:
+                                    reckon = reckons.get(tasker)
+                                    if reckon is None or reckon[2] != tasker.period:
+                                        # first time or period change so reckon from this retime
+                                        reckon = reckons[tasker] = [retime, 0, tasker.period]
+                                    reckon[1] += 1
                                     ready.append((tasker,
-                                                  retime + tasker.period,
+                                                  reckon[0] + reckon[1] * reckon[2],
                                                   tasker.period))  # append allows for period change
 
                             except StopIteration: #generator returned instead of yielded
@@ -308,7 +321,8 @@ class Skedder(object):
                             time.sleep(self.timer.remaining)
                         self.timer.repeat()
 
-                    self.stamp += self.period
+                    ticks += 1
+                    self.stamp = start + ticks * self.period
                     stamp = self.stamp
                     for house in self.houses:
                         house.store.changeStamp(stamp)
